@@ -5,6 +5,7 @@ pub mod enc;
 pub mod engine;
 pub mod gen;
 pub mod hashes;
+pub mod layout;
 pub mod parse;
 pub mod oracle;
 pub mod render;
